@@ -443,10 +443,10 @@ class OrdinalCategoricalDissimilarity(PrecomputedCategoricalDissimilarity):
         indexes = np.argsort(labels)
         matrix = np.zeros((len(labels), len(labels)), dtype=np.float32)
         max_val = 1.0
-        for i in indexes:
-            for j in indexes:
-                matrix[i, j] = abs(p[i] - p[j])
-                max_val = max(matrix[i, j], max_val)
+        for rank_i, i in enumerate(indexes):
+            for rank_j, j in enumerate(indexes):
+                matrix[rank_i, rank_j] = abs(p[i] - p[j])
+                max_val = max(matrix[rank_i, rank_j], max_val)
         matrix /= max_val
 
         super().__init__(SortedSet(labels), matrix, delta_empty)
